@@ -328,11 +328,13 @@ class PedReader:
 
     def samples(self) -> Sequence[str]:
         """Return a list of all mentioned individuals"""
-        samples = set()
+        # A dict keeps the individuals in the order in which the file mentions them
+        # (a set would order them by string hash, which differs between runs)
+        samples = {}
         for trio in self.trios:
             if trio.child is None or trio.mother is None or trio.father is None:
                 continue
-            samples.add(trio.father)
-            samples.add(trio.mother)
-            samples.add(trio.child)
+            samples[trio.father] = None
+            samples[trio.mother] = None
+            samples[trio.child] = None
         return list(samples)
